@@ -369,6 +369,13 @@ func checkRS(t TB, c RSCase) (degOrder string) {
 		failf(t, "C17", "rs-history", c, "constructor: %v", pv)
 	}
 	asc, desc := true, true
+	type heldRS struct {
+		s, snap []int
+		call    int
+	}
+	var held []heldRS
+	var pendingPrev []int
+	sentinels := []int{sp.Size - 1, 1, sp.Size - 2, 2, 7 % sp.Size, 3, 4 % sp.Size, 5 % sp.Size, 1, 1}
 	for i, call := range c.Calls {
 		if i > 0 {
 			if call.N < c.Calls[i-1].N {
@@ -422,9 +429,36 @@ func checkRS(t TB, c RSCase) (degOrder string) {
 		if syn := rf.Syndromes(cw, call.N, c.Base); !ref.AllZero(syn) {
 			failf(t, "C17", "rs-history", c, "call %d: data+check does not vanish at alpha^%d..: syndromes %v", i, c.Base, syn)
 		}
+		// an application that appended to the PREVIOUS result only now (check symbols + trailer) must not thereby
+		// change this result
+		if pendingPrev != nil {
+			ext := append(pendingPrev, sentinels...)
+			held = append(held, heldRS{ext, append([]int(nil), ext...), i - 1})
+			pendingPrev = nil
+			for j := range want {
+				if got[j] != want[j] {
+					failf(t, "C17", "rs-history", c, "call %d: check symbol %d became %d (reference %d) when the caller appended to the slice returned by call %d: returned slices share storage", i, j, got[j], want[j], i-1)
+				}
+			}
+		}
 		// the returned symbols belong to the caller: overwriting them must not influence later calls
 		for j := range got {
 			got[j] = (got[j] + 1 + j) % sp.Size
+		}
+		// ... and so does appending to them (whatever capacity the slice came with), now or after the next call
+		if i%2 == 0 {
+			ext := append(got, sentinels...)
+			held = append(held, heldRS{ext, append([]int(nil), ext...), i})
+		} else {
+			pendingPrev = got
+			held = append(held, heldRS{got, append([]int(nil), got...), i})
+		}
+		for _, h := range held[:len(held)-1] {
+			for j := range h.snap {
+				if h.s[j] != h.snap[j] {
+					failf(t, "C17", "rs-history", c, "the slice returned by call %d (held, overwritten and extended by the caller) changed at index %d from %d to %d during call %d", h.call, j, h.snap[j], h.s[j], i)
+				}
+			}
 		}
 	}
 	switch {
